@@ -80,6 +80,22 @@ def check_c16(tier):
     wd = workdir("C16")
     gen = os.path.join(wd, "gen.ndjson")
     vh_to_file(["sh-gen", str(3000 if tier == "quick" else 40000)], gen)
+    ins = os.path.join(wd, "insert.ndjson")
+    vh_to_file(["sh-insert"], ins)
+    nins, insrej, st2 = trace_validate("Trace_SH", "C16/insert", ins, shards=16, timeout=3000)
+    rep.cov["states"] += st2
+    rep.cov["transitions"] += st2
+    rep.cov["traces_validated_against_impl"] += nins
+    rep.cov["evaluations"] += nins
+    if insrej:
+        bad = set(r["case"] for r in insrej)
+        for line in open(ins):
+            d = json.loads(line)
+            if d["case"] in bad:
+                rep.violation("parse:%s" % vlib.hashlib.sha1(bytes(d["s"])).hexdigest()[:10],
+                              "structured-header parsers on %r: ParseListOfLists accepts=%s, ParseParameterisedList accepts=%s, panic=%s; the reference parsers of tla/StructuredHeader.tla disagree (verdict or value)" % (
+                                  txt(d["s"]), d["ll"], d["pl"], d["panic"]), {"component": "shparse", "s": d["s"], "ll": d["ll"], "pl": d["pl"]})
+    rep.add("inserted_bytes", strings=nins, rejected=len(insrej))
     allp = os.path.join(wd, "trace.ndjson")
     cases = {}
     with open(allp, "w") as f:
